@@ -228,7 +228,7 @@ theorem rlock_reentrant (db : DB) (e : Env) (r n : Nat) (h : Hold) (hinv : DBInv
       (opLock db (rlockCmd e r n)).2 =
         [mkReply (rlockCmd e r n) RESULT_SUCCED ((db.getKey (e.param "lockKey")).locked + 1) (h.depth + 1)] := by
   obtain ⟨h1, e1, e2, e3, e4⟩ := relock_state db (rlockCmd e r n) h hinv hl rfl hprio hexp hs hid hd
-    (by rw [(rlockCmd_shape e r n).2.1]; omega)
+    (by rw [(rlockCmd_shape e r n).2.1]; omega) (rlockCmd_shape e r n).1
   exact ⟨h1, e1, e2, by rw [e3]; rfl, e4⟩
 
 /-- **Another LockId is kept out**: while the key is held, a Lock/RLock request of any other LockId is queued
@@ -279,7 +279,7 @@ theorem rlock_n_locks_n_unlocks (db : DB) (e : Env) (r n' : Nat) (h : Hold) (n j
         ∃ hU, ((unlockN dbL (runlockCmd e r n') j).getKey (e.param "lockKey")).holders = [hU] ∧ hU.depth = n - j ∧
           hU.cmd.lockId = e.fresh) := by
   intro dbL
-  obtain ⟨hL, f1, f2, f3, f4, f5⟩ := lockN_depth (n - 1) db (rlockCmd e r n') h hinv hl rfl hprio hexp rfl hs hid (by omega)
+  obtain ⟨hL, f1, f2, f3, f4, f5⟩ := lockN_depth (n - 1) db (rlockCmd e r n') h hinv hl rfl hprio hexp rfl hs hid (by omega) (rlockCmd_shape e r n').1
   refine ⟨hL, f1, by rw [f2, hd]; omega, ?_⟩
   intro hwL
   obtain ⟨hU, g1, g2, g3, _⟩ := unlockN_depth j dbL (runlockCmd e r n') hL f4 f5 hprio
